@@ -345,7 +345,9 @@ def valid_cids(draw, mode="defects", format_kinds=gen_fields.FORMATS):
             verdict = model_fields.verdict(field, fmt, cell)[0]
             if verdict == "accept":
                 good.append(cell)
-            elif verdict == "reject":
+            elif verdict == "reject" and model_fields.verdict(field, dict(fmt, allowed=None), cell)[0] == "reject":
+                # (rejected whatever characters are allowed: a rewrite may move the 'Allowed characters' row behind the
+                # field, and an example is judged by what is in force when its row is read)
                 bad.append(cell)
         example = draw(st.sampled_from(good)) if good and draw(st.booleans()) else ""
         bad_examples.append(draw(st.sampled_from(bad)) if bad else None)
@@ -538,7 +540,10 @@ def apply_rewrite(tagged, op):
             if row[0] == "field" and len(row[1]) > 3 and row[1][3].strip() != "":
                 row[1][3] = row[1][3].lower() if tape.next(2) else row[1][3].upper()
     elif kind == "permute":
-        slots = [i for i, row in enumerate(tagged) if row[0] == "prop"]
+        # (only the properties in front of the first field: an earlier 'props-late' may have moved one behind the
+        # fields, and swapping it with one a field consults would change what the CID means)
+        first_field = next((i for i, row in enumerate(tagged) if row[0] == "field"), len(tagged))
+        slots = [i for i, row in enumerate(tagged) if row[0] == "prop" and i < first_field]
         props = [tagged[i] for i in slots]
         order = []
         while props:
